@@ -131,6 +131,36 @@ def validateReadFull (K : Keys) (M : KMeta) (ct : Cons.ChainType) (nrdEnabled : 
     else if t.kernels.any isCoinbase then some .kernelFeatures
     else none
 
+/-- the body gates of `validate_read` under any weighting, followed by `verify_features`:
+`Transaction::validate_read` generalised in the weighting (it is `validateReadFull` for
+`AsTransaction`) -/
+def validateReadW (K : Keys) (M : KMeta) (ct : Cons.ChainType) (nrdEnabled : Bool) (w : Weighting) (t : Tx) : Option BErr :=
+  match bodyValidateRead K M ct nrdEnabled w t.inputs t.outputs t.kernels with
+  | some e => some e
+  | none =>
+    if t.outputs.any isCoinbase then some .outputFeatures
+    else if t.kernels.any isCoinbase then some .kernelFeatures
+    else none
+
+/-- `Transaction::validate(weighting)`, its gates in the order of the code:
+
+```text
+self.body.verify_features()?;          // FIRST here, LAST in validate_read
+self.body.validate(weighting)?;        // = validate_read(weighting)?; range proofs; kernel signatures
+self.verify_kernel_sums(self.overage(), self.offset.clone())?;
+```
+
+`later` is the outcome of what comes after the gates (range proofs, kernel signatures, kernel sums:
+cryptography, `none` when all of it holds). -/
+def txValidateGates (K : Keys) (M : KMeta) (ct : Cons.ChainType) (nrdEnabled : Bool) (w : Weighting) (t : Tx)
+    (later : Option BErr) : Option BErr :=
+  if t.outputs.any isCoinbase then some .outputFeatures
+  else if t.kernels.any isCoinbase then some .kernelFeatures
+  else
+    match bodyValidateRead K M ct nrdEnabled w t.inputs t.outputs t.kernels with
+    | some e => some e
+    | none => later
+
 /-! ## the header `Block::from_reward` builds -/
 
 structure Hdr where
